@@ -69,7 +69,7 @@ def dumpH (v : GoVal) (isSlice : Bool) (st : DSt) : DSt :=
   | .uint _ n => if isSlice then st.w (natToBytes n) else st
   | .float _ _ _ rOwn => if isSlice then st.w rOwn else st
   | .other _ _ _ _ => if isSlice then st.w (b! "\"unknown\"") else st
-  | .iface _ => st                         -- Interface kind: `HandleDumpStruct` again, which writes nothing
+  | .iface _ _ => st                         -- Interface kind: `HandleDumpStruct` again, which writes nothing
   | .slice _ _ _ es => if isSlice then (dumpElems es (st.w [91])).w [93] else st
   | .array _ _ es => if isSlice then (dumpElems es (st.w [91])).w [93] else st
   | .map _ _ _ es => if isSlice then ((dumpEntries es ((st.w [123]).mark 0)).mark 2).w [125] else st
@@ -109,7 +109,7 @@ def dumpKV (field : Option (Bytes × Bool)) (tv : GoVal) (st : DSt) : DSt :=
   | .struct _ _ _ fs =>
     if dumpIsTimeField field then dumpLeaf field [] st
     else dumpObj fs (dumpName field st)
-  | .iface _ => dumpLeaf field [] st
+  | .iface _ _ => dumpLeaf field [] st
   | .slice _ _ _ es =>
     if dumpIsTimeField field then dumpLeaf field [] st
     else (dumpElems es ((dumpName field st).w [91])).w [93]
